@@ -168,19 +168,27 @@ func NewBinaryModel() *BinaryModel {
 func (m *BinaryModel) ResolveDependencies() {
 	m.Config = NewConfiguration(m.Options)
 	for _, packet := range m.Packets {
-		for _, field := range packet.Fields {
-			if of, ok := field.Attr.(*ObjectFieldAttribute); ok {
-				if of.RefPacket == nil {
-					if refPacket, exists := m.PacketsMap[of.PacketName]; exists {
-						of.RefPacket = refPacket
-					} else {
-						m.AddSyntaxError(&SyntaxError{
-							Line:   field.Line,
-							Column: field.Column,
-							Msg:    "Unknown packet type " + of.PacketName + " for field " + field.Name,
-						})
-					}
+		m.resolvePacketFields(packet)
+	}
+}
+
+// resolvePacketFields links object fields to the packets they name, including the fields of
+// inline objects at any depth.
+func (m *BinaryModel) resolvePacketFields(packet *Packet) {
+	for _, field := range packet.Fields {
+		if of, ok := field.Attr.(*ObjectFieldAttribute); ok {
+			if of.RefPacket == nil {
+				if refPacket, exists := m.PacketsMap[of.PacketName]; exists {
+					of.RefPacket = refPacket
+				} else {
+					m.AddSyntaxError(&SyntaxError{
+						Line:   field.Line,
+						Column: field.Column,
+						Msg:    "Unknown packet type " + of.PacketName + " for field " + field.Name,
+					})
 				}
+			} else if of.IsIner {
+				m.resolvePacketFields(of.RefPacket)
 			}
 		}
 	}
